@@ -42,16 +42,101 @@ def _as_nd(interp, v, fr):
     raise Unsupported(f"array-like {v!r}")
 
 
+def _pick_row(rows, c, rest):
+    """rows[c].fn(rest) for a concrete or symbolic row number c (ite chain; items may be byte tuples)."""
+    if isinstance(c, int):
+        return rows[c].fn(rest)
+    vals = [r.fn(rest) for r in rows]
+    cz = zint(c)
+    if isinstance(vals[0], tuple):
+        out = []
+        for k in range(len(vals[0])):
+            e = zint(vals[-1][k])
+            for j in range(len(vals) - 2, -1, -1):
+                e = z3.If(cz == j, zint(vals[j][k]), e)
+            out.append(e)
+        return tuple(out)
+    e = zval(vals[-1])
+    for j in range(len(vals) - 2, -1, -1):
+        e = z3.If(cz == j, zval(vals[j]), e)
+    return e
+
+
 def _pick(items, i):
     if isinstance(i, int):
         return items[i]
     raise Unsupported("symbolic row pick among arrays")
 
 
+_WIDTHS = {"int8": 1, "uint8": 1, "int16": 2, "uint16": 2, "int32": 4, "uint32": 4, "int64": 8, "uint64": 8}
+
+
+def dtype_width(dt):
+    """Item width in bytes of a dtype value of the model (Opaque(('dtype', name))), or None when unknown."""
+    if isinstance(dt, Opaque) and isinstance(dt.what, tuple) and dt.what[0] == "dtype":
+        nm = dt.what[1]
+        if isinstance(nm, Opaque):
+            return dtype_width(nm)
+        if isinstance(nm, str):
+            return _WIDTHS.get(nm.lstrip("<>=|"))
+    return None
+
+
 def np_call(interp, name, args, kwargs, fr):
     T = interp.trusted
     if name == "dtype":
         return Opaque(("dtype", args[0]))
+    if name == "frombuffer" and (dtype_width(args[1] if len(args) > 1 else kwargs.get("dtype")) or 1) > 1:
+        # items of w > 1 bytes: an item IS its w memory bytes (a tuple, memory order); nothing in this model interprets them as numbers
+        dt = args[1] if len(args) > 1 else kwargs.get("dtype")
+        w = dtype_width(dt)
+        T.add("numpy: frombuffer(b, dtype of w bytes) needs len(b) % w == 0 and yields len(b)//w items, item i = the memory bytes b[w*i .. w*i+w-1]; "
+              "tobytes writes the items' memory bytes back in order")
+        raw = args[0]
+        if not isinstance(raw, ListV):
+            raise Unsupported("frombuffer of non-bytes")
+        l = to_symbolic(raw.copy()) if raw.items is not None else raw
+        ln = zint(l.length)
+        if not fr.spec and not interp.run.branch(ln % w == 0):
+            interp.py_raise("ValueError")
+        return NdV((z3.simplify(ln / w),), lambda idx, l=l, w=w: tuple(z3.Select(l.arr, zint(idx[0]) * w + k) for k in range(w)), dtype=dt)
+    if name == "pad":
+        # np.pad(a, (0, N), "linear_ramp", end_values=...): a followed by N further items (their values: uninterpreted)
+        a = _as_nd(interp, args[0], fr)
+        widths = args[1]
+        if isinstance(widths, ListV):
+            widths = tuple(widths.items)
+        if len(a.shape) != 1 or not (isinstance(widths, tuple) and len(widths) == 2 and widths[0] == 0):
+            raise Unsupported("np.pad other than appending to a 1-D array")
+        T.add("numpy: pad(a, (0, N), mode) is a followed by N items (N >= 0); the appended values are not interpreted")
+        N = zint(widths[1])
+        la = zint(a.shape[0])
+        w = dtype_width(a.dtype) or 1
+        tag = fresh_name("padfill")
+        fills = [z3.Function(f"{tag}_{k}", z3.IntSort(), z3.IntSort()) for k in range(w)]
+
+        def fn(idx, a=a, la=la):
+            i = zint(idx[0])
+            cur = a.fn((i,))
+            if isinstance(cur, tuple):
+                return tuple(z3.If(i < la, zint(cur[k]), fills[k](i)) for k in range(len(cur)))
+            return z3.If(i < la, zval(cur), fills[0](i))
+        return NdV((z3.simplify(la + z3.If(N > 0, N, 0)),), fn, a.dtype)
+    if name == "vstack":
+        rows = args[0]
+        if isinstance(rows, ListV):
+            if rows.items is None:
+                raise Unsupported("vstack of a symbolic-length list")
+            rows = rows.items
+        rows = [_as_nd(interp, r, fr) for r in rows]
+        if not rows or any(len(r.shape) != 1 for r in rows):
+            raise Unsupported("vstack of other than 1-D rows")
+        T.add("numpy: vstack(rows) needs rows of equal length L and is the len(rows) x L array with out[c][f] = rows[c][f]")
+        L = zint(rows[0].shape[0])
+        same = z3.And([zint(r.shape[0]) == L for r in rows[1:]]) if len(rows) > 1 else z3.BoolVal(True)
+        if not fr.spec and not interp.run.branch(same):
+            interp.py_raise("ValueError")
+        return NdV((len(rows), z3.simplify(L)), lambda idx, rows=rows: _pick_row(rows, idx[0], (idx[1],)), rows[0].dtype)
     if name == "frombuffer":
         T.add("numpy: frombuffer(b, int8/uint8-like view) yields len(b) items, item k = b[k]; tobytes inverts it")
         raw = args[0]
@@ -109,12 +194,27 @@ def np_call(interp, name, args, kwargs, fr):
     raise Unsupported(f"np.{name}")
 
 
-def nd_reshape(interp, a, shape, fr):
+def nd_reshape(interp, a, shape, fr, order="C"):
     interp.trusted.add("numpy: reshape(a, [r, c]) in C order: out[i][k] = a.flat[i*c + k]; requires r*c == size")
     if isinstance(shape, ListV):
         if shape.items is None:
             raise Unsupported("symbolic shape")
         shape = tuple(shape.items)
+    if len(a.shape) == 2 and len(shape) == 1 and shape[0] == -1:
+        r, c = a.shape
+        if order == "F":
+            interp.trusted.add("numpy: reshape((-1,), order='F') of an r x c array walks columns first: out[i] = a[i % r][i // r]")
+            if not isinstance(r, int) or r <= 0:
+                raise Unsupported("column-major flattening with a symbolic row count")
+            return NdV((z3.simplify(r * zint(c)),), lambda idx, a=a, r=r: a.fn((zint(idx[0]) % r, zint(idx[0]) / r)), a.dtype)
+        return nd_method(interp, a, "flatten", [], {}, fr)
+    if len(a.shape) == 1 and len(shape) == 2 and shape[0] == -1 and isinstance(shape[1], int) and shape[1] > 0:
+        interp.trusted.add("numpy: reshape((-1, c)) of a 1-D array needs size % c == 0 and has size//c rows")
+        c = shape[1]
+        n = zint(a.shape[0])
+        if not fr.spec and not interp.run.branch(n % c == 0):
+            interp.py_raise("ValueError")
+        return NdV((z3.simplify(n / c), c), lambda idx, a=a, c=c: a.fn((zint(idx[0]) * c + zint(idx[1]),)), a.dtype)
     if len(a.shape) != 1 or len(shape) != 2:
         raise Unsupported("reshape rank")
     r, c = shape
@@ -136,6 +236,20 @@ def nd_method(interp, a, name, args, kwargs, fr):
             interp.run.oblige(interp.label("flatten.cols-positive"), zint(c) > 0, kind="implicit")
             interp.run.assume(zint(c) > 0)
         return NdV((zint(r) * zint(c),), lambda idx: a.fn((zint(idx[0]) / zint(c), zint(idx[0]) % zint(c))), a.dtype)
+    if name == "byteswap":
+        interp.trusted.add("numpy: byteswap() reverses the memory bytes of every item")
+        return NdV(a.shape, lambda idx, a=a: (lambda v: tuple(reversed(v)) if isinstance(v, tuple) else v)(a.fn(tuple(idx))), a.dtype)
+    if name == "tobytes" and len(a.shape) == 1 and (dtype_width(a.dtype) or 1) > 1:
+        w = dtype_width(a.dtype)
+        j = z3.Int(fresh_name("j"))
+        item = a.fn((j / w,))
+        if not isinstance(item, tuple) or len(item) != w:
+            raise Unsupported("tobytes: item representation does not match the dtype width")
+        e = zint(item[w - 1])
+        for k in range(w - 2, -1, -1):
+            e = z3.If(j % w == k, zint(item[k]), e)
+        n = zint(a.shape[0])
+        return ListV(None, z3.simplify(n * w), z3.Lambda([j], e), "int", "bytes")
     if name == "tobytes":
         if len(a.shape) != 1:
             raise Unsupported("tobytes of nd array")
@@ -143,7 +257,13 @@ def nd_method(interp, a, name, args, kwargs, fr):
         n = a.shape[0]
         return ListV(None, z3.simplify(zint(n)) if is_z3(n) else n, z3.Lambda([j], a.fn((j,))), "int", "bytes")
     if name == "reshape":
-        return nd_reshape(interp, a, args[0] if len(args) == 1 else tuple(args), fr)
+        return nd_reshape(interp, a, args[0] if len(args) == 1 else tuple(args), fr, order=kwargs.get("order", "C"))
+    if name == "astype" and dtype_width(a.dtype) is not None and (dtype_width(a.dtype) > 1 or dtype_width(args[0] if args else None) == 1):
+        tw = dtype_width(args[0] if args else None)
+        if tw != dtype_width(a.dtype):
+            raise Unsupported("astype between item widths")
+        interp.trusted.add("numpy: astype between integer dtypes of the same width and byte order keeps every item's memory bytes")
+        return NdV(a.shape, a.fn, args[0])
     if name == "astype":
         interp.trusted.add("numpy: astype is elementwise (out[i] = cast(in[i]); same length)")
         cast = z3.Function("np_astype", z3.IntSort(), z3.IntSort())
